@@ -51,6 +51,9 @@ func (c *Ctx) siteName(s *ReportSite) string {
 			n++
 		}
 	}
+	if s.Via != nil {
+		base += "<-" + FuncName(s.Via.Parent())
+	}
 	if n > 0 {
 		base += fmt.Sprintf("/%d", n+1)
 	}
@@ -60,8 +63,17 @@ func (c *Ctx) siteName(s *ReportSite) string {
 func (c *Ctx) buildSiteInfo(s *ReportSite) *siteInfo {
 	P := c.P
 	si := &siteInfo{S: s, Name: c.siteName(s), used: map[string]string{}}
-	si.Up = P.Guards(s.Alloc)
-	si.Flow = P.FlowToTerminal(s.Alloc, c.isReporterTerminal)
+	if s.Via != nil {
+		// guards along the call path through this particular call site
+		up := append([]Lit{}, P.BlockGuards(s.Alloc.Block())...)
+		up = append(up, P.BlockGuards(s.Via.Block())...)
+		up = append(up, P.EntryGuards(s.Via.Parent())...)
+		si.Up = dedupLits(up)
+		si.Flow = P.FlowToTerminalVia(s.Alloc, c.isReporterTerminal, s.Fn, s.Via)
+	} else {
+		si.Up = P.Guards(s.Alloc)
+		si.Flow = P.FlowToTerminal(s.Alloc, c.isReporterTerminal)
+	}
 	all := newLitSet(si.Up)
 	if si.Flow.Reached {
 		all = all.union(si.Flow.Guards)
@@ -467,7 +479,7 @@ func (c *Ctx) roleOf(r ssa.Value, depth int) string {
 			if rs := c.P.Resolve(a.X); len(rs) > 0 {
 				inner = c.roleOf(rs[0], depth+1)
 			}
-			return inner + "[" + strings.Trim(idxTag(a.Index), "[]") + "]"
+			return inner + "[" + strings.Trim(idxTagB(a.Index, a.X), "[]") + "]"
 		}
 	case *ssa.Extract:
 		if nx, ok := x.Tuple.(*ssa.Next); ok {
